@@ -51,7 +51,7 @@ def _returns_its_argument(prog: Program, f, busy: set) -> bool:
     def passes(e) -> bool:
         if isinstance(e, _ast.Name):
             return e.id in same
-        if isinstance(e, _ast.Call) and isinstance(e.func, _ast.Attribute) and e.func.attr.startswith("type_check") and isinstance(e.func.value, _ast.Name) and e.func.value.id in ("cls", "self") and f.cls is not None:
+        if isinstance(e, _ast.Call) and isinstance(e.func, _ast.Attribute) and isinstance(e.func.value, _ast.Name) and e.func.value.id in ("cls", "self") and f.cls is not None:
             callee = prog.lookup_method(f.cls, e.func.attr)
             args = list(e.args) + [k.value for k in e.keywords if k.arg in _VALUE_PARAMS]
             return callee is not None and any(isinstance(a, _ast.Name) and a.id in same for a in args) and _returns_its_argument(prog, callee, busy)
@@ -254,10 +254,16 @@ class Model:
         forced = self.forced_type(ci)
         fi = self.init_of(ci)
         type_raises = []
+        mentions_type = False
         for guard, node in self.raises_in(fi, early_exits=False):
             lvs = list(leaves(guard))
+            mentions_type = mentions_type or any(s[0] == "fld" and s[2] == TYPE_FIELD for s in lvs) or TYPE_FIELD in show(guard)
             if lvs and all(s[0] == "fld" and s[2] == TYPE_FIELD for s in lvs):
                 type_raises.append((guard, node))
+        if forced is None and not type_raises and not mentions_type:
+            # In/Out constructors restrict their types with a raise whose guard reads only the type; when none is visible here the restriction lives
+            # somewhere this reading does not reach (a base-class helper fed with a table, say): unknown, not "every type is allowed"
+            raise AnalysisError(f"{ci.name}.__init__: no raise that depends only on the transaction type is visible: the set of types the class accepts cannot be read from this shape")
         allowed = set()
         for m in members:
             if forced is not None and m.member != forced:
